@@ -103,6 +103,8 @@ func (c *c12clock) NewTicker(time.Duration) *time.Ticker {
 }
 
 var c12stackBuf = make([]byte, 1<<20)
+var c12tickBroken bool
+var c12hangs int
 
 // is any flushLoop goroutine of a BufferedWriteSyncer present in this process?
 func c12loopPresent() bool {
@@ -153,7 +155,11 @@ func c12tick(clk *c12clock, sink *c12sink, viol func(string)) bool {
 		return false
 	}
 	before := sink.nsyncs()
-	deadline := time.Now().Add(8 * time.Second)
+	limit := 8 * time.Second
+	if c12tickBroken {
+		limit = 5 * time.Millisecond // already reported once: do not spend 8s on every further tick
+	}
+	deadline := time.Now().Add(limit)
 	for {
 		t := time.NewTimer(20 * time.Millisecond)
 		select {
@@ -162,6 +168,7 @@ func c12tick(clk *c12clock, sink *c12sink, viol func(string)) bool {
 			for sink.nsyncs() == before {
 				if time.Now().After(deadline) {
 					viol("tick received by the flush loop but the sink saw no Sync within 8s")
+					c12tickBroken = true
 					return true
 				}
 				time.Sleep(20 * time.Microsecond)
@@ -173,6 +180,7 @@ func c12tick(clk *c12clock, sink *c12sink, viol func(string)) bool {
 			}
 			if time.Now().After(deadline) {
 				viol("flush loop goroutine present but not receiving ticks for 8s")
+				c12tickBroken = true
 				return false
 			}
 		}
@@ -308,11 +316,19 @@ func c12emit(c *Ctx, size int, ops []c12op, outs []c12out, mode int, class strin
 		rs, alive := c12runBWS(size, ops, outs, viol)
 		done <- result{rs, alive}
 	}()
+	if c12hangs >= 3 {
+		return // repeated hangs already reported: do not wait for every remaining case
+	}
+	limit := 60 * time.Second
+	if c12hangs > 0 {
+		limit = 3 * time.Second
+	}
 	var res result
 	select {
 	case res = <-done:
-	case <-time.After(60 * time.Second):
-		c12viol(c, "operation sequence did not complete within 60s (deadlock?)", in)
+	case <-time.After(limit):
+		c12hangs++
+		c12viol(c, "operation sequence did not complete within its time limit (60s, then 3s): deadlock", in)
 		return
 	}
 	vmu.Lock()
@@ -372,7 +388,13 @@ func c12emit(c *Ctx, size int, ops []c12op, outs []c12out, mode int, class strin
 // verdict per line of the case file and the runner pairs verdicts with cases by position.
 var c12side []func(*Ctx)
 
+var c12violCount = map[string]int{}
+
 func c12viol(c *Ctx, what string, replay SX) {
+	c12violCount[what]++
+	if c12violCount[what] > 3 { // the first three inputs per kind of violation are enough
+		return
+	}
 	c12side = append(c12side, func(c *Ctx) { c.Viol(what, replay) })
 }
 func c12info(c *Ctx, k, v string) { c12side = append(c12side, func(c *Ctx) { c.Info(k, v) }) }
@@ -418,13 +440,15 @@ func c12(c *Ctx) {
 		{4, []c12op{c12X, c12X, c12S, c12T, c12w("ab"), c12T, c12X, c12X}, nil}, // Stop before any use
 		{4, []c12op{c12S, c12w("ab"), c12T, c12w("cd"), c12T, c12T}, nil},       // ticks
 		{1, []c12op{c12w("a"), c12w("b"), c12w(""), c12w("cd"), c12X}, nil},
-		{0, []c12op{c12w("abc"), c12w(string(make([]byte, 5000))), c12S, c12X}, nil},                          // default size 256 KiB
-		{-1, []c12op{c12w("abc"), c12w(string(make([]byte, 5000))), c12w("x"), c12X}, nil},                    // bufio default 4096
-		{4, []c12op{c12w("abc"), c12w("de"), c12S, c12w("f"), c12X}, []c12out{{-1, true}}},                    // flush error is sticky
-		{4, []c12op{c12w("abc"), c12w("de"), c12S, c12w("f"), c12X}, []c12out{{1, false}}},                    // short write
-		{4, []c12op{c12w("abcdefg"), c12w("hi"), c12S}, []c12out{{3, false}}},                                 // short direct write continues
-		{4, []c12op{c12w("ab"), c12S, c12X, c12X}, []c12out{{-1, false}, {-1, true}, {-1, true}, {-1, true}}}, // sync errors
-		{4, []c12op{c12w("ab"), c12X, c12X}, []c12out{{-1, true}}},                                            // zap's own "stop twice"
+		{0, []c12op{c12w("abc"), c12w(string(make([]byte, 5000))), c12S, c12X}, nil},                              // default size 256 KiB
+		{-1, []c12op{c12w("abc"), c12w(string(make([]byte, 5000))), c12w("x"), c12X}, nil},                        // bufio default 4096
+		{0, []c12op{c12w(string(make([]byte, 200000))), c12w(string(make([]byte, 62144))), c12w("x"), c12S}, nil}, // exactly 256 KiB, then one more
+		{-7, []c12op{c12w(string(make([]byte, 4000))), c12w(string(make([]byte, 96))), c12w("x"), c12S}, nil},     // exactly 4096, then one more
+		{4, []c12op{c12w("abc"), c12w("de"), c12S, c12w("f"), c12X}, []c12out{{-1, true}}},                        // flush error is sticky
+		{4, []c12op{c12w("abc"), c12w("de"), c12S, c12w("f"), c12X}, []c12out{{1, false}}},                        // short write
+		{4, []c12op{c12w("abcdefg"), c12w("hi"), c12S}, []c12out{{3, false}}},                                     // short direct write continues
+		{4, []c12op{c12w("ab"), c12S, c12X, c12X}, []c12out{{-1, false}, {-1, true}, {-1, true}, {-1, true}}},     // sync errors
+		{4, []c12op{c12w("ab"), c12X, c12X}, []c12out{{-1, true}}},                                                // zap's own "stop twice"
 	}
 	for _, d := range directed {
 		c12emit(c, d.size, d.ops, d.outs, 0, "directed")
